@@ -91,6 +91,8 @@ func NewGoroutineTaskManager(recordLen int, minimumRequiredPerCore int, cpuNum i
 }
 
 func (m *GoroutineTaskManager) HasError() bool {
+	m.grTaskMutex.Lock()
+	defer m.grTaskMutex.Unlock()
 	return m.err != nil
 }
 
@@ -103,6 +105,8 @@ func (m *GoroutineTaskManager) SetError(e error) {
 }
 
 func (m *GoroutineTaskManager) Err() error {
+	m.grTaskMutex.Lock()
+	defer m.grTaskMutex.Unlock()
 	return m.err
 }
 
